@@ -113,6 +113,8 @@ fn deviants(rng: &mut Rng) -> Vec<(String, Pkt)> {
         ("Unknown7f".into(), Pkt::Unknown { id: 0x7f, raw: vec![] }),
         ("Unknown5ByteId".into(), Pkt::Unknown { id: -1, raw: vec![] }),
         ("UnknownMaxId".into(), Pkt::Unknown { id: i32::MAX, raw: vec![0] }),
+        // a frame longer than the (default) maximum of 10 000 bytes: not the expected packet either
+        ("OversizedFrame".into(), Pkt::Unknown { id: 0x7e, raw: vec![0xaa; 10_050] }),
     ]
 }
 
